@@ -176,6 +176,9 @@ class Recorder:
         self.label_error = None
         self.first = None
         self.doc = None
+        self.gdef_info = {"kinds": [], "hasCats": False, "carets": 0}
+        self.gdef_obs = []
+        self.gdef_seen = []
 
     def gid(self, obj, kind):
         self.next_gid += 1
@@ -244,8 +247,46 @@ def recording(base, rec_attr="_rec", label_insert=True):
     return Rec
 
 
+GDEF_KINDS = (("GlyphClassDefStatement", "gcd"), ("LigatureCaretByIndexStatement", "idx"), ("LigatureCaretByPosStatement", "pos"))
+
+
+def gdef_kind_of_object(x):
+    """type of a statement found in a `table GDEF` of the AST (observation)"""
+    for cls, k in GDEF_KINDS:
+        if isinstance(x, getattr(fea_ast, cls)):
+            return k
+    return "other"
+
+
+def gdef_kind_of_text(text):
+    """type of a statement of the user's `table GDEF`, read from the user's text (input; no ufo2ft/feaLib involved)"""
+    word = text.strip().split(None, 1)[0] if text.strip() else ""
+    return {"GlyphClassDef": "gcd", "LigatureCaretByIndex": "idx", "LigatureCaretByPos": "pos"}.get(word, "other")
+
+
+def gdef_info(tree, src, font):
+    """what the model needs to know about the GDEF writer's input: the types of the user's statements inside
+    `table GDEF` blocks (by uid), and - from the font description - whether any glyph has a valid
+    public.openTypeCategories value and how many glyphs carry caret_* / vcaret_* anchors"""
+    kinds = []
+    for s in tree:
+        if s[0] == "B" and s[2] == "table" and s[3] == "GDEF":
+            for it in s[5]:
+                if it[0] == "l":
+                    kinds.append([it[1], gdef_kind_of_text(src[str(it[1])])])
+    cats = (font or {}).get("cats") or {}
+    has_cats = any(v in ("unassigned", "base", "ligature", "mark", "component") for v in cats.values())
+    carets = 0
+    for g in (font or {}).get("glyphs", []):
+        if any(a[0] and (a[0].startswith("caret_") or a[0].startswith("vcaret_")) for a in g.get("anchors", [])):
+            carets += 1
+    return {"kinds": kinds, "hasCats": has_cats, "carets": carets}
+
+
 def recording_gdef(base, rec_attr="_rec"):
-    """the GDEF writer does not use `_insert`: it appends to the user's `table GDEF` or to a new one at the end"""
+    """the GDEF writer does not use `_insert`: it appends to the user's `table GDEF` or to a new one at the end.
+    The step handed to the model holds no observation (rec.gdef_info comes from the case); what the writer added is
+    recorded as observation: ids base+1.. on the new statements (in the file), their types (rec.gdef_obs)."""
 
     class RecGdef(base):
         def write(self, font, feaFile, compiler=None):
@@ -254,19 +295,26 @@ def recording_gdef(base, rec_attr="_rec"):
             tables = [s for s in feaFile.statements if isinstance(s, fea_ast.TableBlock) and s.name == "GDEF"]
             known = {id(x) for t in tables for x in t.statements}
             top = {id(s) for s in feaFile.statements}
-            step = {"type": "gdef", "active": False, "items": [], "newGid": 0}
+            step = {"type": "gdef", "base": rec.next_gid}
+            step.update(rec.gdef_info)
+            seen = {"items": 0, "new": False, "kinds": []}
             try:
                 return super().write(font, feaFile, compiler=compiler)
             finally:
                 for s in feaFile.statements:
                     if id(s) not in top:
-                        step["newGid"] = rec.gid(s, "other")
+                        rec.gid(s, "other")
+                        seen["new"] = True
+                        seen["kinds"] += [gdef_kind_of_object(x) for x in getattr(s, "statements", [])]
                     elif isinstance(s, fea_ast.TableBlock) and s.name == "GDEF":
                         for x in s.statements:
                             if id(x) not in known:
-                                step["items"].append(rec.gid(x, "item"))
-                step["active"] = bool(step["items"] or step["newGid"])
+                                rec.gid(x, "item")
+                                seen["items"] += 1
+                                seen["kinds"].append(gdef_kind_of_object(x))
+                rec.gdef_seen.append(seen)
                 rec.steps.append(step)
+                rec.gdef_obs.append(seen["kinds"])
                 rec.ctx.append(None)
                 rec.files.append(serialize(feaFile))
 
@@ -322,19 +370,28 @@ def make_probe(spec, rec):
     return w
 
 
-def run_probe(tree, src, specs):
-    """parse the user's file, run the probe writers in order; returns (steps, obs)"""
+def run_probe(tree, src, specs, font=None, info=None):
+    """parse the user's file, run the probe writers (and, for a spec of type "gdef", the shipped GDEF writer, called
+    directly on `font`) in order; returns (recorder, err)"""
     from ufo import err_kind
     doc = build_ast(tree, src)
     rec = Recorder(tree)
+    if info is not None:
+        rec.gdef_info = info
     err = None
     for spec in specs:
-        w = make_probe(spec, rec)
+        if spec["type"] == "gdef":
+            w = globals()["RecGdefFeatureWriter"](**spec.get("options", {}))
+        else:
+            w = make_probe(spec, rec)
+        install_recorder(rec)
         try:
-            w.write(None, doc)
+            w.write(font, doc)
         except Exception as e:  # a crash of the code under test is an observation
             err = err_kind(e)
             break
+        finally:
+            install_recorder(None)
     return rec, err
 
 
